@@ -5,6 +5,7 @@ package props
 // DESIGN.md §2.2.  Nothing here reads the wall clock or an RNG.
 
 import (
+	"math/big"
 	"encoding/json"
 	"fmt"
 	"sort"
@@ -431,3 +432,13 @@ func mustAddr(bech string) sdk.AccAddress {
 	}
 	return a
 }
+
+func bigFromStr(s string) *big.Int {
+	v, ok := new(big.Int).SetString(s, 10)
+	if !ok {
+		panic("bad int " + s)
+	}
+	return v
+}
+
+func intFromInt(i int64) sdk.Int { return sdk.NewInt(i) }
